@@ -111,7 +111,7 @@ func init() { streams["C14"] = runC14 }
 
 func runC14(r *Run) {
 	r.Imports = []string{"Base.Val", "Model.Attrs"}
-	r.Rule("one probe element carrying up to 5 attributes over a vocabulary of static (plain / with mustaches), :name and v-bind:name bound, bound-with-mustache, object syntax on class / style / other names (path and literal values, quoted keys, camelCase style keys), " +
+	r.Rule("one probe element carrying up to 5 attributes over a vocabulary of static (plain / with mustaches), :name and v-bind:name bound, bound-with-mustache, object syntax on class / style / other names (path and literal values, quoted keys, camelCase style keys, hyphenated keys with capitals such as CSS custom properties), " +
 		"bracketed [name], v-show and other directives, including several bound attributes, static/bound collisions on class, style and ordinary names; values of every kind and truthiness; " +
 		"observable: the ordered attribute list of the element as an HTML parser reads it back; non-trivial: >= 2 attributes that interact (same name, class/style merge, v-show with style)")
 	r.Assume("attribute values contain no HTML-special characters (escaping is C01/C02); object-literal values are paths or simple literals; one attribute per written name")
@@ -135,7 +135,7 @@ func runC14(r *Run) {
 		a := c14Attr{kind: "obj", key: key}
 		keys := []string{"on", "off", "x-y", "big"}
 		if key == "style" {
-			keys = []string{"fontSize", "color", "margin-top", "display", "Width"}
+			keys = []string{"fontSize", "color", "margin-top", "display", "Width", "--accentColor", "--my-var", "x-Pad"}
 		}
 		used := map[string]bool{}
 		for i, k := 0, 1+rr.Intn(3); i < k; i++ {
@@ -166,7 +166,7 @@ func runC14(r *Run) {
 			case 0, 1:
 				a = c14Attr{kind: "static", key: name, val: Pick(rr, []string{"lit", "a b", "color: red; margin:0", "x {{ s }} y", "{{ n }}", "", "width:1px;color:green"})}
 				if name == "style" {
-					a.val = Pick(rr, []string{"color: red; margin:0", "width:1px;color:green", "display:block", ""})
+					a.val = Pick(rr, []string{"color: red; margin:0", "width:1px;color:green", "display:block", "", "--accentColor: red; color:red", "--accent-color:blue;x-Pad:1"})
 				}
 			case 2, 3, 4:
 				a = c14Attr{kind: "bound", key: name, val: Pick(rr, paths), vbind: rr.Intn(4) == 0}
